@@ -14,10 +14,12 @@ RANDOM_GEN = T([dict(cfg="GEN_Random.cfg", num=20, depth=22, seeds=12)],
                [dict(cfg="GEN_Random.cfg", num=60, depth=26, seeds=14)])
 RANDOM_MC = T([dict(cfg="MC_Random.cfg", timeout=1500)], [dict(cfg="MC_Random_big.cfg", timeout=3400)])
 RANDOM_GEN_CFG = "users=2,provs=1,funds=25,timeout=2,price=10"
+# fixed coverage suite: exercises every required antecedent whatever the seed
+RANDOM_SCN = [dict(file="scenarios/random_cover.ndjson", cfg=RANDOM_GEN_CFG)]
 
 PROPS = {
     "C18": ModuleCheck("random", "Random.tla", "RandomTrace.tla", "RandomTrace.cfg", RANDOM_CLAUSES_C18,
-                       RANDOM_MC, RANDOM_GEN, RANDOM_RND, scenarios=[],
+                       RANDOM_MC, RANDOM_GEN, RANDOM_RND, scenarios=RANDOM_SCN,
                        required=["req_ok", "req_oracle_ok", "fulfil_block", "fulfil_oracle", "same_height_many",
                                  "drop_err", "drop_timeout", "dup_id"],
                        gen_cfg=RANDOM_GEN_CFG,
